@@ -28,7 +28,7 @@ Term grammar (tuples):
 """
 from cfg import rpo
 
-MAX_PASSES = 12
+MAX_PASSES = 60
 MAX_DEPTH = 10
 
 
@@ -153,6 +153,9 @@ class SymExec:
         self.final_states = {}
         self.converged = False
         self.site_info = {}
+        self.sticky = set()
+        self.forced = {}
+        self.passno = 0
         self.call_old = {}  # (site, argidx) -> pointee value of a `&mut` argument at the call
 
     # ------------------------------------------------------------------ store access
@@ -423,7 +426,7 @@ class SymExec:
         return st
 
     def join(self, bb, preds_out):
-        if len(preds_out) == 1:
+        if len(preds_out) == 1 and not any(b == bb for (b, _k) in self.sticky):
             return dict(preds_out[0][1])
         keys = set()
         for _, s in preds_out:
@@ -437,23 +440,69 @@ class SymExec:
                     v = self.default(key)
                 vals.append((p, v))
             first = vals[0][1]
-            if all(v == first for _, v in vals[1:]):
+            ph = ("phi", self.fn, bb, key, ())
+            if (bb, key) in self.forced:
+                out[key] = self.forced[(bb, key)]
+                continue
+            if (bb, key) not in self.sticky and all(v == first for _, v in vals[1:]) and first != ph:
                 out[key] = first
             else:
-                ph = ("phi", self.fn, bb, key, ())
-                # a phi whose only non-self inputs agree is that value
-                others = {v for _, v in vals if v != ph}
-                if len(others) == 1:
-                    out[key] = next(iter(others))
-                else:
-                    out[key] = ph
-                    self.phi_inputs[(bb, key)] = dict(vals)
+                # after many passes make phis sticky (monotone from then on: guaranteed convergence)
+                if self.passno > 12:
+                    self.sticky.add((bb, key))
+                out[key] = ph
+                self.phi_inputs[(bb, key)] = dict(vals)
         return out
 
     def execute(self):
+        """fixpoint, then elimination of redundant phis (phi cycles whose only outside input
+        is one value - Braun et al.), repeated until none is left"""
+        for rnd in range(8):
+            self._fixpoint()
+            red = self._redundant_phis()
+            if not red:
+                break
+            self.forced.update(red)
+            self.in_state, self.out_state, self.phi_inputs = {}, {}, {}
+            self.term_info, self.assigns, self.ret_by_block, self.final_states = {}, {}, {}, {}
+            self.site_info, self.call_old, self.sticky = {}, {}, set()
+        self._finish()
+        return self
+
+    def _redundant_phis(self):
+        out = {}
+        for (bb, key), ins in self.phi_inputs.items():
+            if bb == "ret":
+                continue
+            me = ("phi", self.fn, bb, key, ())
+            leaves = set()
+            seen = {me}
+            work = list(ins.values())
+            ok = True
+            while work:
+                v = work.pop()
+                if v in seen:
+                    continue
+                seen.add(v)
+                if v[0] == "phi" and len(v) == 5 and v[1] == self.fn and (v[2], v[3]) in self.phi_inputs and v[4] == ():
+                    work.extend(self.phi_inputs[(v[2], v[3])].values())
+                else:
+                    leaves.add(v)
+                    if len(leaves) > 1:
+                        ok = False
+                        break
+            if ok and len(leaves) == 1:
+                leaf = next(iter(leaves))
+                if not any(x == me for x in walk(leaf)):
+                    out[(bb, key)] = leaf
+        return out
+
+    def _fixpoint(self):
         order = rpo(self.body)
         preds = self.body.preds()
+        self.converged = False
         for it in range(MAX_PASSES):
+            self.passno = it
             changed = False
             for bb in order:
                 if bb == 0:
@@ -471,6 +520,8 @@ class SymExec:
             if not changed:
                 self.converged = True
                 break
+
+    def _finish(self):
         rets = list(self.ret_by_block.items())
         if len(rets) == 1:
             self.ret = rets[0][1]
